@@ -15,36 +15,42 @@ def import_medit(path):
     with open(path, 'r' ) as meditf:
         data = deque([x.strip() for x in meditf.readlines()])
                 
+    def read_count(tokens):
+        # the number of entries follows the keyword, either on the same line or on the next one
+        return int(tokens[1]) if len(tokens)>1 else int(data.popleft())
+
     while data:
-        line = data.popleft()
+        tokens = data.popleft().split()
+        if not tokens: continue
+        line = tokens[0]
 
         if line=="End": break # end of file
 
         elif line=="Vertices":
-            nv = int(data.popleft())
+            nv = read_count(tokens)
             for _ in range(nv):
                 line = data.popleft().split()
                 vertex = [float(u.strip()) for u in line[:3]]
                 obj.vertices.append(vertex)
 
         elif line=="Edges":
-            ne = int(data.popleft())
+            ne = read_count(tokens)
             parse_field(data, obj.edges, ne, 2)
 
         elif line=="Triangles":
-            nt = int(data.popleft())
+            nt = read_count(tokens)
             parse_field(data, obj.faces, nt, 3)
 
         elif line=="Quadrilaterals":
-            nq = int(data.popleft())
+            nq = read_count(tokens)
             parse_field(data, obj.faces,  nq, 4)
 
         elif line=="Tetrahedra":
-            nc = int(data.popleft())
+            nc = read_count(tokens)
             parse_field(data, obj.cells, nc, 4)
         
         elif line=="Hexahedra":
-            nc = int(data.popleft())
+            nc = read_count(tokens)
             parse_field(data, obj.cells, nc, 8)
 
     return obj
